@@ -725,11 +725,29 @@ def hadrons_case(draw, tier):
         else:
             call['idl'] = sorted(draw(st.lists(st.sampled_from(cf), min_size=5, max_size=len(cf), unique=True)))
         call['idl_form'] = draw(st.sampled_from(['list', 'range']))
+    if draw(st.integers(0, 5)) == 0:
+        # a selection that names configurations for which no file exists cannot be served: the reader has to refuse it
+        cf = list(fs['cfgs'])
+        step = (cf[1] - cf[0]) if regular else 1
+        extra = [cf[-1] + step * k for k in range(1, draw(st.integers(1, 3)) + 1)] if draw(st.booleans()) else \
+            [c + 1 for c in cf[:-1] if c + 1 not in cf][:draw(st.integers(1, 4))]
+        if extra:
+            call['idl'] = sorted(set(cf) | set(extra))
+            call['idl_form'] = 'list' if len(set(np.diff(call['idl']))) > 1 else draw(st.sampled_from(['list', 'range']))
+            call['missing'] = extra
     return {'fs': fs, 'call': call, 'excluded': []}
 
 
 def hadrons_oracle(spec):
     fs, call = spec['fs'], spec['call']
+    if call.get('missing'):
+        with common.tempdir() as d:
+            HD.build(fs).write(d)
+            try:
+                HD.run(d, fs, call)
+            except Exception as e:
+                return {'nt': True, 'cls': ['sel:idl_with_missing_configurations:' + type(e).__name__]}
+        raise Violation('hadrons reader served a selection that names configurations %r for which no file exists' % (call['missing'],))
     with common.tempdir() as d:
         HD.build(fs).write(d)
         got = HD.run(d, fs, call)
